@@ -71,5 +71,6 @@ func (op *FsTxn) Abort() bool {
 	}
 	op.releaseInodes()
 	op.Atxn.PostAbort()
+	verifHook("aborted", op, 0)
 	return true
 }
